@@ -103,7 +103,30 @@ def gen_build(rng):
     return ["# build %s" % ("valid" if valid else "invalid"), "bc " + "+".join(parts)]
 
 
+def twin_builds():
+    """chains built one after the other in one process whose options print alike but differ in type or structure: a
+    valid one first, then its ill-typed twin (and the other way round) — each build is judged on its own options"""
+    pairs = [("custom-auth@apiKey=s:12345", "custom-auth@apiKey=i:12345"),
+             ("gzip@level=i:5@min_size=i:1@content_types=l:text/", "gzip@level=s:5@min_size=i:1@content_types=l:text/"),
+             ("gzip@level=i:7@min_size=i:1@content_types=l:text/css", "gzip@level=i:7@min_size=i:1@content_types=s:[text/css]"),
+             ("size_limit@max_request_body=i:64", "size_limit@max_request_body=s:64"),
+             ("size_limit@max_response_body=f:4321.0", "size_limit@max_response_body=s:4321"),
+             ("headers@set=m:X-A:1", "headers@set=s:map[X-A:1]")]
+    eps = []
+    for good, bad in pairs:
+        eps.append(["# builds ok err ok", "bc " + good, "bc " + bad, "bc " + good])
+        eps.append(["# builds err ok err", "bc logging+" + bad, "bc logging+" + good, "bc " + bad])
+    return eps
+
+
 def oracle(ep, outs):
+    if ep and ep[0].startswith("# builds"):
+        want = ep[0].split()[2:]
+        ol = C.op_lines(ep)
+        if len(ol) != len(want):
+            return []           # (a shrunk episode)
+        return ["BuildChain answered %s for a chain whose own options make it %s (it was built after a chain whose options print alike): %s" % (
+            o, "valid" if w == "ok" else "invalid", l) for l, o, w in zip(ol, outs, want) if o != w][:2]
     if ep and ep[0].startswith("# build"):
         want = "ok" if ep[0].split()[2] == "valid" else "err"
         return [] if not outs or outs[0] == want else ["BuildChain answered %s for a chain the documentation makes %s: %s" % (outs[0], ep[0].split()[2], ep[1])]
@@ -158,7 +181,7 @@ def check(ctx):
     binary = c14.build(ctx)
     d = C.Differential(ctx, binary, timeout=900)
     n = 2000 if ctx.thorough() else 300
-    episodes = C.load_corpus(ID) + [gen_order(ctx.rng) for _ in range(n)] + [gen_build(ctx.rng) for _ in range(2 * n)]
+    episodes = C.load_corpus(ID) + [gen_order(ctx.rng) for _ in range(n)] + [gen_build(ctx.rng) for _ in range(2 * n)] + twin_builds()
     bad = d.check(episodes, oracle=oracle, label="chain")
     sess = [rwgen.session_episode(ctx.rng, ctx.rng.choice(["pr.1+sl.1000.100+hdr+pr.2", "log+pr.1+gz.5.10.text%2F+sl.1000.5000+pr.2", "hdr+pr.1"]), limit=100)
             for _ in range(100 if ctx.thorough() else 20)]
